@@ -110,7 +110,12 @@ func zzArgKeys(km string, arg string) string {
 func zzBuffer(prefix string, n int) []rune {
 	rs := zzverif.Runes(prefix, n)
 	for _, r := range rs {
-		zzverif.Assume(zzverif.ValidRune(r))
+		if zzverif.Param("alpha") == "ascii" {
+			// 7-bit characters except NUL (which Line.Insert strips by design)
+			zzverif.Assume(r > 0 && r < 0x80)
+		} else {
+			zzverif.Assume(zzverif.ValidRune(r))
+		}
 	}
 	return rs
 }
